@@ -19,6 +19,7 @@ func staticCfg() genCfg {
 	c.origins = true
 	c.varBounds = true
 	c.deepInfix = true
+	c.accts = []string{"a", "b", "c", "world:fees", "users:001"}
 	return c
 }
 
@@ -128,6 +129,10 @@ func cmdChkTrees(args []string) {
 		if mode == "3" || mode == "types" {
 			c = genIllCase(r, i)
 			edits = 1
+			if i%4 == 0 {
+				edits += nameEdits(r, c)
+				fixMetaVals(c)
+			}
 		} else {
 			c = genCase(r, cfg, i)
 			if (mode == "2" || mode == "names") && i%3 != 0 {
